@@ -1,12 +1,15 @@
 /-
 Scalar multiplications of src/ed/relic_ed_mul.c, relic_ed_mul_fix.c, relic_ed_mul_sim.c over an arbitrary carrier with
-explicit operations. The loops are the ones of Model/MulAlg.lean (the ed_* routines were cloned from the ep_* ones); what
-differs is around them, and is what this file mirrors:
+explicit operations. The loops are the ones of Model/MulAlg.lean (the ed_* routines were cloned from the ep_* ones); this
+file mirrors what is around them:
 
-* NO reduction of the scalar modulo the group order: the recodings are taken of |k| itself, into the fixed-size arrays of
-  the C code (RLC_FP_BITS + 1 entries, …) — `none` is the ERR_NO_BUFFER the recoding throws when |k| does not fit;
-* the sign of k is applied to the result at the end (ed_neg), or to the base points before the tables are built (sim_*);
-* the early exits `k = 0 ∨ P = O ⇒ O` come before the recoding (so O·long-k is O, not an error);
+* like the ep_* originals, every routine whose recoding array / precomputed table is sized for scalars below the group
+  order first reduces the scalar: m = bn_mod(k, r), the non-negative residue — the sign of k is folded in
+  (ed_mul_lwreg: |k| mod r, parity of that, sign applied at the end). [/repo fixes for findings C17-F1/F2/F5.]
+  ed_mul_basic and ed_mul_monty size their recoding by bn_bits(k) and work on |k| itself, sign at the end;
+* `none` is the ERR_NO_BUFFER a recoding throws when its argument does not fit the fixed-size array of the C code
+  (Lemmas/EdMul.lean: never, as long as r < 2^RLC_FP_BITS);
+* the early exits `k = 0 ∨ P = O ⇒ O` come before everything else;
 * ed_mul_monty starts from (O, P) and walks all bits of |k|.
 -/
 import RelicVerif.Model.MulAlg
@@ -22,8 +25,14 @@ structure Par where
   fpBits : Nat     -- RLC_FP_BITS
   width : Nat      -- RLC_WIDTH
   depth : Nat      -- RLC_DEPTH
-  ordBits : Nat    -- bn_bits(r), r the group order
+  ord : Nat        -- the group order r (ed_curve_get_ord)
 deriving Repr
+
+/-- bn_bits(r) -/
+def Par.ordBits (par : Par) : Nat := bitLen par.ord
+
+/-- bn_mod(m, k, r): the non-negative residue of k modulo the group order -/
+def Par.red (par : Par) (k : Int) : Nat := (k % (par.ord : Int)).toNat
 
 /-- `if (bn_sign(k) == RLC_NEG) ed_neg(r, r)` -/
 def signed (o : Ops G) (k : Int) (x : G) : G := if k < 0 then o.neg x else x
@@ -36,17 +45,17 @@ def mulBasic (o : Ops G) (isO : G → Bool) (p : G) (k : Int) : Option G :=
   if k = 0 ∨ isO p then some o.zero else
   (recNaf (bitLen k.natAbs + 1) k.natAbs 2).map fun ds => signed o k (mulSigned o [p] o.zero ds)
 
-/-- ed_mul_lwnaf (ed_mul_naf_imp): width-w NAF into int8_t naf[RLC_FP_BITS + 1], table of odd multiples (ed_tab) -/
+/-- ed_mul_lwnaf (ed_mul_naf_imp): width-w NAF of k mod r into int8_t naf[RLC_FP_BITS + 1], table of odd multiples (ed_tab) -/
 def mulLwnaf (o : Ops G) (isO : G → Bool) (par : Par) (p : G) (k : Int) : Option G :=
   if k = 0 ∨ isO p then some o.zero else
-  (recNaf (par.fpBits + 1) k.natAbs par.width).map fun ds =>
-    signed o k (mulSigned o (tabOdd o p (2 ^ (par.width - 2))) o.zero ds)
+  (recNaf (par.fpBits + 1) (par.red k) par.width).map fun ds =>
+    mulSigned o (tabOdd o p (2 ^ (par.width - 2))) o.zero ds
 
-/-- ed_mul_slide: sliding windows into uint8_t win[RLC_FP_BITS + 1], table of the odd multiples below 2^w -/
+/-- ed_mul_slide: sliding windows of k mod r into uint8_t win[RLC_FP_BITS + 1], table of the odd multiples below 2^w -/
 def mulSlide (o : Ops G) (isO : G → Bool) (par : Par) (p : G) (k : Int) : Option G :=
   if k = 0 ∨ isO p then some o.zero else
-  (recSlw (par.fpBits + 1) k.natAbs par.width).map fun win =>
-    signed o k (MulAlg.mulSlide o (tabOdd o p (2 ^ (par.width - 1))) o.zero win)
+  (recSlw (par.fpBits + 1) (par.red k) par.width).map fun win =>
+    MulAlg.mulSlide o (tabOdd o p (2 ^ (par.width - 1))) o.zero win
 
 /-- the ladder of ed_mul_monty: (t0, t1) = (O, P); for every bit of |k| from the top:
     bit 1 ↦ (t0 + t1, 2·t1); bit 0 ↦ (2·t0, t0 + t1) (the conditional swaps around `add; dbl`) -/
@@ -58,25 +67,24 @@ def ladder (o : Ops G) (p : G) (bits : List Bool) : G :=
 def mulMonty (o : Ops G) (isO : G → Bool) (p : G) (k : Int) : Option G :=
   if k = 0 ∨ isO p then some o.zero else some (signed o k (ladder o p (bitsMsb k.natAbs)))
 
-/-- ed_mul_lwreg (ed_mul_reg_imp): regular recoding of |k| | 1 for RLC_FP_BITS bits, parity correction by −P, sign at
-    the end. The recoding array has ⌈(RLC_FP_BITS + 1)/(w − 1)⌉ entries and l = that + 1 is announced to bn_rec_reg
-    (finding C17-F4: one byte too many is cleared). -/
+/-- ed_mul_lwreg (ed_mul_reg_imp): regular recoding of (|k| mod r) | 1 for RLC_FP_BITS bits, parity correction by −P when
+    |k| mod r is even, sign of k applied at the end. The recoding array has 1 + ⌈(RLC_FP_BITS + 1)/(w − 1)⌉ entries. -/
 def mulLwreg (o : Ops G) (isO : G → Bool) (par : Par) (p : G) (k : Int) : Option G :=
   if k = 0 ∨ isO p then some o.zero else
   let w := par.width
-  (recReg ((par.fpBits + 1 + (w - 1) - 1) / (w - 1) + 1) (k.natAbs ||| 1) par.fpBits w).map fun reg =>
-    signed o k (mulReg o (tabOdd o p (2 ^ (w - 2))) o.zero w reg (k.natAbs % 2 = 0) p)
+  let kk := k.natAbs % par.ord
+  (recReg ((par.fpBits + 1 + (w - 1) - 1) / (w - 1) + 1) (kk ||| 1) par.fpBits w).map fun reg =>
+    signed o k (mulReg o (tabOdd o p (2 ^ (w - 2))) o.zero w reg (kk % 2 = 0) p)
 
-/-- ed_mul_pre_basic + ed_mul_fix_basic: t[i] = 2^i·P for i < bn_bits(r); one addition per set bit of |k|.
-    The C loop runs over bn_bits(k) and reads t[i] beyond the precomputed entries for longer scalars (finding C17-F2);
-    the model stops at the table. -/
+/-- ed_mul_pre_basic + ed_mul_fix_basic: t[i] = 2^i·P for i < bn_bits(r); one addition per set bit of k mod r -/
 def mulFixBasic (o : Ops G) (par : Par) (p : G) (k : Int) : Option G :=
-  some (signed o k (MulAlg.mulFixBasic o (tabPow2 o p par.ordBits) o.zero k.natAbs))
+  if k = 0 then some o.zero else
+  some (MulAlg.mulFixBasic o (tabPow2 o p par.ordBits) o.zero (par.red k))
 
-/-- ed_mul_pre_lwnaf + ed_mul_fix_lwnaf (ed_mul_fix_plain): width-RLC_DEPTH NAF into naf[RLC_FP_BITS + 1] -/
+/-- ed_mul_pre_lwnaf + ed_mul_fix_lwnaf (ed_mul_fix_plain): width-RLC_DEPTH NAF of k mod r into naf[RLC_FP_BITS + 1] -/
 def mulFixLwnaf (o : Ops G) (par : Par) (p : G) (k : Int) : Option G :=
-  (recNaf (par.fpBits + 1) k.natAbs par.depth).map fun ds =>
-    signed o k (mulSigned o (tabOdd o p (2 ^ (par.depth - 2))) o.zero ds)
+  (recNaf (par.fpBits + 1) (par.red k) par.depth).map fun ds =>
+    mulSigned o (tabOdd o p (2 ^ (par.depth - 2))) o.zero ds
 
 /-! ### single-table and double-table comb methods -/
 
@@ -92,12 +100,11 @@ def tabCombs (o : Ops G) (p : G) (l : Nat) : Nat → List G
     let top := dblN o (l * j) p
     t ++ t.map fun x => o.add x top
 
-/-- ed_mul_fix_combs (ed_mul_combs_plain): l = ⌈bn_bits(r)/depth⌉ columns, r = 2r + t[column i] from i = l − 1 down; bits of k
-    at or above depth·l are never looked at (finding C17-F2) -/
+/-- ed_mul_fix_combs (ed_mul_combs_plain): l = ⌈bn_bits(r)/depth⌉ columns of k mod r, r = 2r + t[column i] from i = l − 1 down -/
 def mulFixCombs (o : Ops G) (par : Par) (p : G) (k : Int) : Option G :=
   let l := (par.ordBits + par.depth - 1) / par.depth
   let tab := tabCombs o p l par.depth
-  some (signed o k ((List.range l).reverse.foldl (fun r i => o.add (o.dbl r) (tab.getD (combCol k.natAbs l par.depth i) o.zero)) o.zero))
+  some ((List.range l).reverse.foldl (fun r i => o.add (o.dbl r) (tab.getD (combCol (par.red k) l par.depth i) o.zero)) o.zero)
 
 /-! ### simultaneous multiplications k·P + m·Q -/
 
@@ -114,40 +121,34 @@ def simExits (o : Ops G) (isO : G → Bool) (mul : G → Int → Option G) (p : 
   else if m = 0 ∨ isO q then mul p k
   else body
 
-/-- ed_mul_sim_trick: w = RLC_WIDTH/2, windows of |k|, |m| into w0, w1[RLC_FP_BITS + 1] with *len = ⌈RLC_FP_BITS/w⌉;
-    the table is built from ±P, ±Q -/
+/-- ed_mul_sim_trick: w = RLC_WIDTH/2, windows of k mod r, m mod r into w0, w1[RLC_FP_BITS + 1] with *len = ⌈RLC_FP_BITS/w⌉ -/
 def simTrick (o : Ops G) (isO : G → Bool) (par : Par) (mul : G → Int → Option G) (p : G) (k : Int) (q : G) (m : Int) : Option G :=
   simExits o isO mul p k q m <|
     let w := par.width / 2
     let cap := (par.fpBits + w - 1) / w
-    match recWin cap k.natAbs w, recWin cap m.natAbs w with
-    | some w0, some w1 => some (MulAlg.simTrick o (tabTrick o (signed o k p) (signed o m q) w) o.zero w w0 w1)
+    match recWin cap (par.red k) w, recWin cap (par.red m) w with
+    | some w0, some w1 => some (MulAlg.simTrick o (tabTrick o p q w) o.zero w w0 w1)
     | _, _ => none
 
-/-- ed_mul_sim_inter (ed_mul_sim_plain without the generator table): two width-w NAFs, negated digit-wise for a negative scalar -/
+/-- ed_mul_sim_inter (ed_mul_sim_plain without the generator table): two width-w NAFs of the reduced scalars -/
 def simInter (o : Ops G) (isO : G → Bool) (par : Par) (mul : G → Int → Option G) (p : G) (k : Int) (q : G) (m : Int) : Option G :=
   simExits o isO mul p k q m <|
-    match recNaf (par.fpBits + 1) k.natAbs par.width, recNaf (par.fpBits + 1) m.natAbs par.width with
+    match recNaf (par.fpBits + 1) (par.red k) par.width, recNaf (par.fpBits + 1) (par.red m) par.width with
     | some n0, some n1 =>
-      let n0 := if k < 0 then n0.map (fun d => -d) else n0
-      let n1 := if m < 0 then n1.map (fun d => -d) else n1
       some (MulAlg.simInter o (tabOdd o p (2 ^ (par.width - 2))) (tabOdd o q (2 ^ (par.width - 2))) o.zero n0 n1)
     | _, _ => none
 
-/-- ed_mul_sim_joint: joint sparse form of (|k|, |m|) into jsf[2(RLC_FP_BITS + 1)] (bn_rec_jsf checks the first scalar only),
-    bases ±P, ±Q -/
+/-- ed_mul_sim_joint: joint sparse form of (k mod r, m mod r) into jsf[2(RLC_FP_BITS + 1)] -/
 def simJoint (o : Ops G) (isO : G → Bool) (par : Par) (mul : G → Int → Option G) (p : G) (k : Int) (q : G) (m : Int) : Option G :=
   simExits o isO mul p k q m <|
-    (recJsf (2 * (par.fpBits + 1)) k.natAbs m.natAbs).map fun (j0, j1) =>
-      MulAlg.simJoint o (signed o k p) (signed o m q) j0 j1
+    (recJsf (2 * (par.fpBits + 1)) (par.red k) (par.red m)).map fun (j0, j1) =>
+      MulAlg.simJoint o p q j0 j1
 
 /-- ed_mul_sim_gen when ED_SIM == INTER, ED_FIX == LWNAF and the generator table is precomputed: ed_mul_sim_plain with the
     generator's table (width RLC_DEPTH) for the first scalar; no early exits inside -/
 def simPlainGen (o : Ops G) (par : Par) (g : G) (k : Int) (q : G) (m : Int) : Option G :=
-  match recNaf (par.fpBits + 1) k.natAbs par.depth, recNaf (par.fpBits + 1) m.natAbs par.width with
+  match recNaf (par.fpBits + 1) (par.red k) par.depth, recNaf (par.fpBits + 1) (par.red m) par.width with
   | some n0, some n1 =>
-    let n0 := if k < 0 then n0.map (fun d => -d) else n0
-    let n1 := if m < 0 then n1.map (fun d => -d) else n1
     some (MulAlg.simInter o (tabOdd o g (2 ^ (par.depth - 2))) (tabOdd o q (2 ^ (par.width - 2))) o.zero n0 n1)
   | _, _ => none
 
